@@ -244,6 +244,8 @@ where
         self.values.shrink_to(num_rows);
         self.map.clear();
         self.map.shrink_to(num_rows, |_| 0); // hasher does not matter since the map is cleared
+        // the group of the NULL key is gone with all the others
+        self.null_group = None;
     }
 }
 
